@@ -12,6 +12,7 @@ spec/RunCounterTrace.tla (conformance + property monitor).
 import json
 import os
 
+import c07_env
 import vlib
 
 DEV_KEY = "uint32-wrap"
@@ -299,3 +300,22 @@ def run(ctx):
             if not ctx.violations:
                 raise vlib.Inconclusive(msg)
             ctx.observations.append(msg)   # the tree misbehaves in other ways: report those
+
+    # ---------------- 5. environment level: START_ACTIVITY and the counter, on the real core ----------------
+    c07_env.run(ctx)
+
+
+def replay(ctx, obj):
+    if obj.get("kind") == "env":
+        return c07_env.replay(ctx, obj)
+    wrap = ctx.deviation_open(DEV_KEY)
+    s = obj["scenario"]
+    binp = ctx.build("runcounter")
+    scn_file, trace_file = ctx.path("scenarios.ndjson"), ctx.path("trace.ndjson")
+    ctx.write_ndjson(scn_file, [s])
+    ctx.run([binp, "-scenarios", scn_file, "-trace", trace_file], timeout=300)
+    viol, drift, _tr = ctx.validate("RunCounterTrace", None, trace_file, cfg_text=cfg_trace(wrap), timeout=300)
+    lines = ctx.read_ndjson(trace_file)
+    for v in viol:
+        ctx.add_violation({"inv": v[1], "scn": v[2], "line": v[3], "cause": "", "detail": v[4], "origin": s.get("origin", "?")},
+                          replay_obj={"scenario": s, "trace": lines})
